@@ -72,6 +72,12 @@ CHECKS = {
         text="estimate() = headline accessor (term identity / bit-precise), concatenate! base+step+accessors complete; collect/extend/add-loop agreement for all types "
              "with FromIterator/Extend for sequences of length <= 3 (bounded, listed separately in the evidence).",
         note="Bounded part: input length <= 3. Recorder stubs replace add in the glue harnesses. Trusted: CBMC, kani::stub."),
+    "C19": dict(engine="K+VL", category="other", design="6/C19",
+        technique="Kani wiring check of impl_from_par_iterator! against an executable specification stub of rayon's fold/reduce contract (bounded), Verus merge-tree lemma; real concurrency not applicable",
+        text="Bounded (<= 3 items, <= 3 contiguous chunks, both bracketings, optional identities): every item is absorbed exactly once by the fold/reduce wiring "
+             "(multiset recorder stubs), Min/Max exact, for f64 and &f64 sources. Under the assumed rayon contract the unbounded statement over all chunkings is C02+C11+C14 through the Verus merge-tree lemma with empty leaves. "
+             "Level `other`: bounded stand-in + lemma, never counted as proved.",
+        note="A-RAYON (rayon's documented fold/reduce contract) is assumed and made executable in contracts/rayon_stub; threads, work stealing, thread counts and data races are NOT decided (Kani has no threads)."),
     "C14": dict(
         engine="K+VL",
         technique="Kani function contracts (proof_for_contract / stub_verified) on the real crate, full f64 domain; Verus history lemma",
